@@ -166,4 +166,44 @@ CHECKS = {
                         "conflicting duplicate subnets (ill-formed, order dependent) are not generated"],
         "required_probes": {"quick": ["multi_value_keys"], "thorough": ["multi_value_keys", "free_running_big_file"]},
     },
+    "C08": {
+        "test": "TestC08",
+        "level": "exploration",
+        "budget": {"quick": 45, "thorough": 900},
+        "rule": ("each evaluation is a chain of 1-3 (thorough: 1-6) diffs: files are seeded selections (some records twice, changing subnet sets) from a "
+                 "generated pool, preprocessed with the real preprocessor, the first compiled with the real compiler; every step applies the shuffled "
+                 "multiset line diff with the real rdb.ApplyDiff on the real RocksDB and compares the full dump with a fresh compile of the target "
+                 "(v1 and v2 keys). Fault population: an undeliverable line (delete of an absent value / absent key, malformed line, unknown "
+                 "operation) at a seeded position, a failing low-level RocksDB call, or a reader error mid-diff - the call must fail and the dump must "
+                 "equal the dump before. Non-trivial = a non-empty diff was applied; distinct = pool seed + first selection + layout."),
+        "components": {
+            "real": ["rdb.ApplyDiff, dbdiff.Entry parsing/conversion, Batch integrate, value-list codec", "dnsdata preprocessor", "rdb.Compile (builder) for the start and the expected databases", "RocksDB (cgo)"],
+            "stub": ["error-injecting wrapper around the updater's rdb.DBI"],
+            "simulated": ["the diff io.Reader (short reads, error at an offset)", "history of successive diffs (seeded)"],
+            "not_run": ["no scheduler: ApplyDiff is sequential; a concurrent secondary reader is not part of the property"],
+        },
+        "assumptions": ["equality is per key as a multiset of values; empty keys are absent"],
+        "required_probes": {"quick": ["diff_applied", "failed_diff_left_db_unchanged", "range_point_churn"], "thorough": ["diff_applied", "failed_diff_left_db_unchanged", "range_point_churn"]},
+    },
+    "C09": {
+        "test": "TestC09",
+        "level": "exploration",
+        "budget": {"quick": 35, "thorough": 600},
+        "replay": "verdict",
+        "rule": ("each evaluation streams one generated data file through the real dnsdata.PreprocReader with a consumer handing it buffers of seeded "
+                 "sizes (1..4096, cycled), a source reader with seeded short reads and (fault population) an error at a seeded offset, and the "
+                 "per-map range-point producer goroutines scheduled at their chunk sends. The output must contain exactly the lines a whole-buffer run "
+                 "produces (nothing lost, duplicated or cut at a buffer boundary), compile (sequential codec, v1/v2 keys) to the same database as the "
+                 "original, be idempotent at database level, report a source error, and terminate. Every generated line is also round-tripped "
+                 "through its text normal form: that part is input generation, not simulation, and is labelled so. Non-trivial = more than 3 lines; "
+                 "distinct = schedule hash + file seed + buffer sizes."),
+        "components": {
+            "real": ["dnsdata.PreprocReader (Scan/Read), Codec.Preprocess", "Accum.OpenScanner / SubnetRanger.OpenScanner producer goroutines, rearranger", "per-line codec (DecodeLn / MarshalText / MarshalMap)"],
+            "stub": [],
+            "simulated": ["consumer buffer sizes and source reader behaviour (seeded)", "producer goroutine scheduling at chunk sends (seeded)"],
+            "not_run": ["rdb.Compile of both texts (C07 relates the compiler to the sequential codec; a share of thorough runs could add it)"],
+        },
+        "assumptions": ["database equality is taken on the sequential codec's output, to which C07 relates the real compiler"],
+        "required_probes": {"quick": ["lines_round_tripped", "range_point_lines"], "thorough": ["lines_round_tripped", "range_point_lines", "producer_chunk_scheduled"]},
+    },
 }
